@@ -509,6 +509,24 @@ def drive(res, script, case_id, name, n, limit, plus, hist, rnd, tmp: Path | Non
                 res.count("saveload")
                 if continued:
                     checkpoint_again(res, add, orc, case_id, nB, n, limit, plus, hist, more, d, snap, params, traj, rm2, rm3)
+                if continued and more:
+                    # the usual checkpointing pattern: the same minimiser is saved AGAIN into the same directory, some
+                    # iterations later, and loaded from it — the loaded one must be the state at the second save
+                    snap2 = snapshot(rm)
+                    T2 = T + len(more)
+                    try:
+                        rm.save(d)
+                        params2 = json.loads((d / "params.json").read_text())
+                        rmC = GameRegretMinimizer.load(d)
+                    except Exception as e:  # noqa: BLE001
+                        orc.bad(f"saving a minimiser again into the directory of its earlier checkpoint (or loading it) raises "
+                                f"{type(e).__name__}", "regret:save-load", saved_at=T2, first_saved_at=T)
+                    else:
+                        if not same_state(rm, snap2) or not same_state(rmC, snap2) or params2.get("iteration") != snap2["it"] \
+                                or bool(rmC.plus) != bool(plus) or int(rmC.limit_of_revealed) != int(rm.limit_of_revealed):
+                            orc.bad("a minimiser saved a second time into the same directory and then loaded is not the state at "
+                                    "the second save (stale checkpoint parts)", "regret:save-load", saved_at=T2, first_saved_at=T)
+                        res.count("checkpoint_dir_reused")
         finally:
             shutil.rmtree(d, ignore_errors=True)
     return orc, rm
